@@ -21,7 +21,30 @@ ASSUME = ['vf/refjson.Writer only emits spellings of DESIGN.md Appendix A.2', 's
           'bare strings are generated only when the second character is not a colon']
 _me = sys.modules[__name__]
 
-FORMS = ['str', 'str-unicode', 'bytes-utf8', 'bytes-utf16', 'bytes-latin1', 'object', 'array-object', 'array-str']
+FORMS = ['str', 'str-unicode', 'bytes-utf8', 'bytes-utf16', 'bytes-latin1', 'object', 'array-object', 'array-str',
+         'bytes-cp1252', 'bytes-shift_jis', 'bytes-utf16le', 'bytes-utf8', 'str', 'object']
+BYTE_FORMS = {'bytes-utf8': 'utf-8', 'bytes-utf16': 'utf-16', 'bytes-latin1': 'latin-1', 'bytes-cp1252': 'cp1252',
+              'bytes-shift_jis': 'shift_jis', 'bytes-utf16le': 'utf-16-le'}
+
+
+def encode_for(obj, cs):
+    """The JSON text of obj as bytes in charset cs, every character the charset can carry written raw (the others as
+    \\uXXXX escapes, which JSON allows inside strings - the only place a non-ASCII character can occur)."""
+    text = json.dumps(obj, ensure_ascii=False)
+    out = []
+    for ch in text:
+        try:
+            if ch.encode(cs).decode(cs) != ch:
+                raise UnicodeError
+            out.append(ch)
+        except UnicodeError:
+            o = ord(ch)
+            if o > 0xffff:
+                o -= 0x10000
+                out.append('\\u%04x\\u%04x' % (0xd800 + (o >> 10), 0xdc00 + (o & 0x3ff)))
+            else:
+                out.append('\\u%04x' % o)
+    return ''.join(out).encode(cs)
 
 
 def expressible(n):
@@ -74,8 +97,10 @@ def judge_doc(ns, seed, script, form):
             text = json.dumps(obj, ensure_ascii=False, separators=(',', ':'))
             back = hszinc.parse(text, mode=hs.JSON, single=single)
         else:
-            cs = {'bytes-utf8': 'utf-8', 'bytes-utf16': 'utf-16', 'bytes-latin1': 'latin-1'}[form]
-            back = hszinc.parse(json.dumps(obj).encode(cs), mode=hs.JSON, charset=cs, single=single)
+            cs = BYTE_FORMS[form]
+            data = encode_for(obj, cs)
+            art['bytes'] = data[:300]
+            back = hszinc.parse(data, mode=hs.JSON, charset=cs, single=single)
     except Exception as e:
         return 'parse-raises:' + type(e).__name__, str(e)[:200], art
     if single:
